@@ -12,12 +12,15 @@ mod verif_pl_rwlock {
     use std::cell::RefCell;
     use std::rc::Rc;
 
+    const SIG: shuttle_engine::sync_types::ResourceSignature =
+        shuttle_engine::sync_types::ResourceSignature::new_const(shuttle_engine::sync_types::ResourceType::BatchSemaphore);
     const BLOCKED: TaskState = TaskState::Blocked { allow_spurious_wakeups: false };
 
     fn mk(sem_taken: usize, slot_taken: bool) -> RawRwLock {
+        // (the signatures are evaluated at compile time: `Location::caller()` is unsupported at verification time)
         let l = RawRwLock {
-            sem: BatchSemaphore::const_new(MAX_READERS, Fairness::StrictlyFair),
-            upgradable_sem: BatchSemaphore::const_new(1, Fairness::StrictlyFair),
+            sem: BatchSemaphore::const_new_with_signature(MAX_READERS, Fairness::StrictlyFair, SIG),
+            upgradable_sem: BatchSemaphore::const_new_with_signature(1, Fairness::StrictlyFair, SIG),
         };
         l.sem.verif_take(sem_taken);
         l.upgradable_sem.verif_take(if slot_taken { 1 } else { 0 });
@@ -28,6 +31,8 @@ mod verif_pl_rwlock {
     fn env_must_not_block() {
         let runnable = ExecutionState::with(|s| s.current().runnable());
         assert!(runnable);
+        // nothing after a violation matters: do not let the verifier spin in the blocked task's wait loop
+        kani::assume(runnable);
     }
 
     macro_rules! seg {
@@ -52,9 +57,16 @@ mod verif_pl_rwlock {
     // C20.pl.downgrade_to_upgradable [K over the states allowed by inv_PL]: exclusive -> upgradable completes WITHOUT
     // WAITING and never admits a writer: afterwards sem == MAX-1... wait: holder keeps 1 permit => available MAX-1? no:
     // exclusive holds MAX; after the downgrade the holder keeps one permit, so MAX-1 are available; slot taken by me.
-    seg!(c20_pl_downgrade_to_upgradable, |st| {
-        // I hold the lock exclusively; the upgradable slot is free, or held by a task queued in lock_upgradable
-        let slot_taken: bool = kani::any();
+    seg!(c20_pl_downgrade_to_upgradable_slot_free, |st| {
+        let l = mk(MAX_READERS, false);
+        let ((), _cell) = run_in(st, || unsafe { l.downgrade_to_upgradable() });
+        assert!(l.upgradable_sem.available_permits() == 0 && l.sem.available_permits() == MAX_READERS - 1);
+        std::mem::forget(l);
+    });
+
+    seg!(c20_pl_downgrade_to_upgradable_slot_held_by_queued_task, |st| {
+        // I hold the lock exclusively; the upgradable slot is held by a task queued in lock_upgradable (allowed by inv_PL)
+        let slot_taken: bool = true;
         let l = mk(MAX_READERS, slot_taken);
         if slot_taken {
             l.sem.verif_enqueue(1, 1); // that task waits for its shared permit
